@@ -28,6 +28,7 @@ Inductive aval :=
 | AHrefData                   (* xlink:href="data:.."                 write_image_data   *)
 | AIn (k : N) (r : finput)    (* in (k = 1) / in2 (k = 2)             write_filter_input *)
 | AResult (r : N)             (* result=".."                                             *)
+| AStyle                      (* style="mix-blend-mode:..;isolation:.." on a group: ONE attribute *)
 | AXmlns | AXlink.            (* xmlns / xmlns:xlink on the root                         *)
 
 Inductive xout := XE (tag : xtag) (attrs : list aval) (kids : list xout).
@@ -80,7 +81,7 @@ Section Write.
     end
   with write_group (g : group) (clip : bool) {struct g} : list xout :=
     match g with
-    | G i c m fs kids =>
+    | G i sy c m fs kids =>
         if clip then
           (* only the paths directly inside the group are written, carrying the group's clip-path *)
           (fix go (l : list node) : list xout :=
@@ -91,7 +92,9 @@ Section Write.
              end) kids
         else
           [XE Tg (id_attr i ++ opt_url K_CLIP c_id c ++ opt_url K_MASK m_id m ++
-                  match fs with [] => [] | _ => [AUrls (map (fun f => (p, f_id f)) fs)] end)
+                  match fs with [] => [] | _ => [AUrls (map (fun f => (p, f_id f)) fs)] end ++
+                  (* `if g.blend_mode != Normal || g.isolate { style="mix-blend-mode:..;isolation:.." }` *)
+                  (if sy then [AStyle] else []))
               ((fix go (l : list node) : list xout :=
                   match l with [] => [] | k :: r => write_node k false ++ go r end) kids)]
     end.
@@ -247,7 +250,7 @@ Definition aval_eqb (a b : aval) : bool :=
   | AUrl k p i, AUrl l q j => (k =? l) && (p =? q) && (i =? j)
   | AUrls l, AUrls m => list_eqb pair_eqb l m
   | AHref p i, AHref q j => (p =? q) && (i =? j)
-  | AHrefData, AHrefData | AXmlns, AXmlns | AXlink, AXlink => true
+  | AHrefData, AHrefData | AXmlns, AXmlns | AXlink, AXlink | AStyle, AStyle => true
   | AIn k r, AIn l s => (k =? l) && finput_eqb r s
   | AResult r, AResult s => r =? s
   | _, _ => false
